@@ -395,16 +395,16 @@ theorem ftrlRun_is_update_fold [Transc α] (m : α) (r32 : α → α) (hp : Ftrl
 
 /-- on guarded batches the caller's loop succeeds, returns one model per batch, and its last model is
 the step folded over the history from the incoming model (`None` = the empty map) -/
-theorem nbFitHistory_ok {σ : Type} (step : σ → Batch α → σ) (e : σ) (p : Nat)
-    (hist : List (Batch α)) (hg : ∀ b ∈ hist, nbGuard p b = true) :
-    ∀ model : Option σ, ∃ sts, nbFitHistory step e p model hist = some sts ∧
+theorem nbFitHistory_ok {σ : Type} (step : σ → Batch α → σ) (e : σ) (guard : Batch α → Bool)
+    (hist : List (Batch α)) (hg : ∀ b ∈ hist, guard b = true) :
+    ∀ model : Option σ, ∃ sts, nbFitHistory step e guard model hist = some sts ∧
       sts.length = hist.length ∧
       sts.getLastD (model.getD e) = hist.foldl step (model.getD e) := by
   induction hist with
   | nil => intro model; exact ⟨[], rfl, rfl, rfl⟩
   | cons b rest ih =>
     intro model
-    have hb : nbGuard p b = true := hg b List.mem_cons_self
+    have hb : guard b = true := hg b List.mem_cons_self
     obtain ⟨sts, h1, h2, h3⟩ := ih (fun b' hb' => hg b' (List.mem_cons_of_mem _ hb'))
       (some (step (model.getD e) b))
     refine ⟨step (model.getD e) b :: sts, ?_, by simp [h2], ?_⟩
@@ -416,15 +416,15 @@ theorem nbFitHistory_ok {σ : Type} (step : σ → Batch α → σ) (e : σ) (p 
       | cons x xs => simp [List.getLastD]
 
 /-- a batch that fails the guard makes the loop return the error -/
-theorem nbFitHistory_err {σ : Type} (step : σ → Batch α → σ) (e : σ) (p : Nat)
-    (hist : List (Batch α)) (hg : ∃ b ∈ hist, nbGuard p b = false) :
-    ∀ model : Option σ, nbFitHistory step e p model hist = none := by
+theorem nbFitHistory_err {σ : Type} (step : σ → Batch α → σ) (e : σ) (guard : Batch α → Bool)
+    (hist : List (Batch α)) (hg : ∃ b ∈ hist, guard b = false) :
+    ∀ model : Option σ, nbFitHistory step e guard model hist = none := by
   induction hist with
   | nil => obtain ⟨b, hb, _⟩ := hg; simp at hb
   | cons b rest ih =>
     intro model
     obtain ⟨b', hb', hf⟩ := hg
-    by_cases hb : nbGuard p b = true
+    by_cases hb : guard b = true
     · have hb'' : b' ∈ rest := by
         rcases List.mem_cons.mp hb' with rfl | h
         · rw [hb] at hf; exact absurd hf (by simp)
